@@ -229,10 +229,26 @@ pub struct RecReader<'a> {
     pub pos: u64,
     pub log: Vec<(u64, usize, usize)>,
     pub oob: bool,
+    pub empty_reads: u32,
 }
 impl<'a> RecReader<'a> {
     pub fn new(data: &'a [u8]) -> Self {
-        Self { data, pos: 0, log: Vec::new(), oob: false }
+        Self { data, pos: 0, log: Vec::new(), oob: false, empty_reads: 0 }
+    }
+}
+
+/// A consumer that asks again and again at the end of its input and never gives up is hanging; the bound is logical
+/// (consecutive reads that returned nothing), not a clock. Correct consumers stop after one or two.
+pub const SPIN_READS: u32 = 50_000;
+pub fn note_read(empty_reads: &mut u32, wanted: usize, got: usize) {
+    if wanted > 0 && got == 0 {
+        *empty_reads += 1;
+        if *empty_reads >= SPIN_READS {
+            *empty_reads = 0;
+            panic!("harness reader: SPIN - {SPIN_READS} consecutive reads at the end of the input returned nothing and the consumer keeps asking (a hang)");
+        }
+    } else if got > 0 {
+        *empty_reads = 0;
     }
 }
 impl Read for RecReader<'_> {
@@ -242,7 +258,10 @@ impl Read for RecReader<'_> {
         let start = self.pos.min(len) as usize;
         let n = buf.len().min(self.data.len() - start);
         buf[..n].copy_from_slice(&self.data[start..start + n]);
-        self.log.push((self.pos, buf.len(), n));
+        if n > 0 || self.empty_reads < 8 {
+            self.log.push((self.pos, buf.len(), n));
+        }
+        note_read(&mut self.empty_reads, buf.len(), n);
         self.pos += n as u64;
         Ok(n)
     }
@@ -397,4 +416,58 @@ pub fn par_cases(n: u64, f: impl Fn(u64, &mut Report) + Sync) -> Report {
         out.merge(r);
     }
     out
+}
+
+
+/// (read+write syscalls, bytes read+written) of a live process, from /proc/<pid>/io.
+fn proc_io(pid: u32) -> Option<(u64, u64)> {
+    let t = std::fs::read_to_string(format!("/proc/{pid}/io")).ok()?;
+    let mut calls = 0u64;
+    let mut bytes = 0u64;
+    for l in t.lines() {
+        let mut it = l.split(": ");
+        let (k, v) = (it.next()?, it.next()?.trim().parse::<u64>().ok()?);
+        match k {
+            "syscr" | "syscw" => calls += v,
+            "rchar" | "wchar" => bytes += v,
+            _ => {}
+        }
+    }
+    Some((calls, bytes))
+}
+
+/// Logical evidence of a hang, taken when a watchdog fires: over a window of about a second the process issues
+/// thousands of read/write system calls and moves NOT ONE byte (a loop around a read that returns 0 at end of
+/// file). A process that is merely slow on a loaded machine moves bytes or issues few calls; that is inconclusive.
+pub fn spinning_without_progress(pid: u32) -> bool {
+    let Some((c0, b0)) = proc_io(pid) else { return false };
+    std::thread::sleep(std::time::Duration::from_millis(1200));
+    let Some((c1, b1)) = proc_io(pid) else { return false };
+    c1.saturating_sub(c0) > 5000 && b1 == b0
+}
+
+/// Waits for a child under a watchdog. Returns (status, timed_out, spinning); a timed-out child is killed.
+pub fn wait_watchdog(child: &mut std::process::Child, timeout_s: u64) -> (Option<std::process::ExitStatus>, bool, bool) {
+    let t0 = std::time::Instant::now();
+    loop {
+        match child.try_wait() {
+            Ok(Some(s)) => return (Some(s), false, false),
+            Ok(None) => {
+                if t0.elapsed() > std::time::Duration::from_secs(timeout_s) {
+                    let spin = spinning_without_progress(child.id());
+                    let _ = child.kill();
+                    let _ = child.wait();
+                    return (None, true, spin);
+                }
+                std::thread::sleep(std::time::Duration::from_millis(3));
+            }
+            Err(_) => return (None, false, false),
+        }
+    }
+}
+
+/// After the first hang verdict of a run later watchdogs are short: the verdict is in, the rest is bookkeeping.
+pub static HANG_SEEN: std::sync::atomic::AtomicBool = std::sync::atomic::AtomicBool::new(false);
+pub fn watchdog_secs(normal: u64) -> u64 {
+    if HANG_SEEN.load(std::sync::atomic::Ordering::Relaxed) { 8 } else { normal }
 }
